@@ -126,54 +126,65 @@ func TestVerifBounded_C06_Stitch(t *testing.T) {
 func TestVerifBounded_C06_Compose(t *testing.T) {
 	cases, nontrivial := 0, 0
 	letters := "aaccggtt"
-	for _, off := range []int{-2, 0, 3} {
-		verifFeatureSets(2, off-2, off+len(letters)+2, []feat.Orientation{feat.Forward, feat.Reverse, feat.NotOriented}, func(fs []verifFeat) {
-			// features may lie partly or wholly outside the sequence: their clipped segment is then shorter or empty
-			cases++
-			src := linear.NewSeq("s", alphabet.BytesToLetters([]byte(letters)), alphabet.DNA)
-			src.Offset = off
-			dst := linear.NewSeq("d", nil, alphabet.DNA)
-			set := verifSet{}
-			for _, f := range fs {
-				set = append(set, f)
-			}
-			if err := Compose(dst, src, set); err != nil {
-				t.Fatalf("Compose(%v): %v", fs, err)
-			}
-			want := ""
-			for _, f := range fs {
-				s, e := f.s, f.e
-				if s < off {
-					s = off
-				}
-				if e > off+len(letters) {
-					e = off + len(letters)
-				}
-				seg := ""
-				if s < e {
-					seg = letters[s-off : e-off]
-				}
-				if f.ori == feat.Reverse {
-					rc := ""
-					for i := len(seg) - 1; i >= 0; i-- {
-						rc += string(verifComp[seg[i]])
-					}
-					seg = rc
-				}
-				want += seg
-			}
-			if len(fs) == 2 {
-				nontrivial++
-			}
-			if got := string(alphabet.LettersToBytes(dst.Seq)); got != want {
-				t.Fatalf("Compose(%v) of %q at offset %d = %q, want %q", fs, letters, off, got, want)
-			}
-			if string(alphabet.LettersToBytes(src.Seq)) != letters {
-				t.Fatalf("Compose modified its source")
-			}
-		})
+	type pass struct {
+		n, lo, hi int
+		oris      []feat.Orientation
 	}
-	fmt.Printf("BOUNDED name=C06.compose cases=%d nontrivial=%d exhaustive=true domain=%q\n", cases, nontrivial, "sequence \"aaccggtt\", offsets {-2,0,3}, all lists of 0..2 features with coordinates from two positions before to two positions after the sequence (features partly or wholly outside are clipped), orientations forward/reverse/none")
+	for _, off := range []int{-2, 0, 3} {
+		// all lists of up to two features over the wide range, and all lists of exactly three over a narrow one (two
+		// reverse segments after a forward one, a reverse one between forward ones, ...)
+		for pi, ps := range []pass{{2, off - 2, off + len(letters) + 2, []feat.Orientation{feat.Forward, feat.Reverse, feat.NotOriented}}, {3, off + 1, off + 5, []feat.Orientation{feat.Forward, feat.Reverse}}} {
+			verifFeatureSets(ps.n, ps.lo, ps.hi, ps.oris, func(fs []verifFeat) {
+				if pi == 1 && len(fs) < 3 {
+					return
+				}
+				// features may lie partly or wholly outside the sequence: their clipped segment is then shorter or empty
+				cases++
+				src := linear.NewSeq("s", alphabet.BytesToLetters([]byte(letters)), alphabet.DNA)
+				src.Offset = off
+				dst := linear.NewSeq("d", nil, alphabet.DNA)
+				set := verifSet{}
+				for _, f := range fs {
+					set = append(set, f)
+				}
+				if err := Compose(dst, src, set); err != nil {
+					t.Fatalf("Compose(%v): %v", fs, err)
+				}
+				want := ""
+				for _, f := range fs {
+					s, e := f.s, f.e
+					if s < off {
+						s = off
+					}
+					if e > off+len(letters) {
+						e = off + len(letters)
+					}
+					seg := ""
+					if s < e {
+						seg = letters[s-off : e-off]
+					}
+					if f.ori == feat.Reverse {
+						rc := ""
+						for i := len(seg) - 1; i >= 0; i-- {
+							rc += string(verifComp[seg[i]])
+						}
+						seg = rc
+					}
+					want += seg
+				}
+				if len(fs) >= 2 {
+					nontrivial++
+				}
+				if got := string(alphabet.LettersToBytes(dst.Seq)); got != want {
+					t.Fatalf("Compose(%v) of %q at offset %d = %q, want %q", fs, letters, off, got, want)
+				}
+				if string(alphabet.LettersToBytes(src.Seq)) != letters {
+					t.Fatalf("Compose modified its source")
+				}
+			})
+		}
+	}
+	fmt.Printf("BOUNDED name=C06.compose cases=%d nontrivial=%d exhaustive=true domain=%q\n", cases, nontrivial, "sequence \"aaccggtt\", offsets {-2,0,3}, all lists of 0..2 features with coordinates from two positions before to two positions after the sequence (features partly or wholly outside are clipped), orientations forward/reverse/none, and all lists of 3 features with coordinates in offset+1..offset+5, forward/reverse")
 }
 
 type verifQuality struct {
